@@ -5,6 +5,7 @@ use crate::adapter::{Gen, Ty};
 use crate::engine::{CaseInfo, CheckResult, Ctx, Fail, PSub, SubCheck, SubResult, Violation};
 use crate::gens::{self, GenSpec, Op};
 use crate::ops::{apply, fmt_val};
+use crate::props::c12::JOp;
 use proptest::prelude::*;
 use serde::{Deserialize, Serialize};
 use serde_json::{json, Value};
@@ -22,6 +23,45 @@ unsafe impl Send for SendBox {}
 pub struct Instance {
     pub spec: GenSpec,
     pub ops: Vec<Op>,
+    /// JitterRng only: a history over its whole public API (timer_stats, set_rounds, test_timer
+    /// as well as the output calls); replaces `ops` when not empty
+    #[serde(default)]
+    pub jops: Vec<JOp>,
+}
+
+impl Instance {
+    pub fn n_ops(&self) -> usize {
+        if self.jops.is_empty() {
+            self.ops.len()
+        } else {
+            self.jops.len()
+        }
+    }
+    /// run operation #k and describe everything the caller can observe of it
+    pub fn step(&self, g: &mut dyn Gen, k: usize) -> String {
+        if self.jops.is_empty() {
+            return apply(g, &self.ops[k]).map(|v| fmt_val(&v)).unwrap_or_default();
+        }
+        let text = match &self.jops[k] {
+            JOp::U32 => format!("u32 {:#010x}", g.next_u32()),
+            JOp::U64 => format!("u64 {:#018x}", g.next_u64()),
+            JOp::Fill(n) => format!("bytes {}", crate::hexser::hex(&crate::ops::fill_unaligned(g, *n))),
+            JOp::Stats(v) => format!("timer_stats {}", g.jitter().map(|j| j.timer_stats(*v)).unwrap_or(0)),
+            JOp::Rounds(r) => {
+                if let Some(j) = g.jitter() {
+                    j.set_rounds((*r).max(1));
+                }
+                "set_rounds".to_string()
+            }
+            JOp::TestTimer => format!("test_timer {:?}", g.jitter().map(|j| j.test_timer())),
+            JOp::Clone => String::new(),
+        };
+        // the number of timer readings consumed is observable by the owner of the timer
+        format!("{} @{}", text, g.jitter().map(|j| j.reads()).unwrap_or(0))
+    }
+    fn trace(&self, g: &mut dyn Gen) -> Vec<String> {
+        (0..self.n_ops()).map(|k| self.step(g, k)).collect()
+    }
 }
 
 #[derive(Clone, Debug, Serialize, Deserialize)]
@@ -41,7 +81,7 @@ pub struct FreeCase {
 
 fn solo_here(inst: &Instance) -> Vec<String> {
     let mut g = inst.spec.build();
-    inst.ops.iter().map(|op| apply(&mut *g, op).map(|v| fmt_val(&v)).unwrap_or_default()).collect::<Vec<_>>()
+    inst.trace(&mut *g)
 }
 
 /// solo replays of all instances, one after the other, in one fresh thread
@@ -83,11 +123,11 @@ fn round_robin(insts: &[Instance]) -> Vec<Vec<String>> {
     let k = insts.len();
     let mut gens: Vec<Box<dyn Gen>> = insts.iter().map(|i| i.spec.build()).collect();
     let mut traces: Vec<Vec<String>> = vec![Vec::new(); k];
-    let longest = insts.iter().map(|i| i.ops.len()).max().unwrap_or(0);
+    let longest = insts.iter().map(|i| i.n_ops()).max().unwrap_or(0);
     for step in 0..longest {
         for i in 0..k {
-            if step < insts[i].ops.len() {
-                traces[i].push(apply(&mut *gens[i], &insts[i].ops[step]).map(|v| fmt_val(&v)).unwrap_or_default());
+            if step < insts[i].n_ops() {
+                traces[i].push(insts[i].step(&mut *gens[i], step));
             }
         }
     }
@@ -109,7 +149,7 @@ pub fn solo_trace_main() {
     std::io::stdin().read_to_string(&mut text).expect("stdin");
     let inst: Instance = serde_json::from_str(&text).expect("instance json");
     let mut g = inst.spec.build();
-    let tr: Vec<String> = inst.ops.iter().map(|op| apply(&mut *g, op).map(|v| fmt_val(&v)).unwrap_or_default()).collect();
+    let tr: Vec<String> = inst.trace(&mut *g);
     println!("{}", serde_json::to_string(&tr).unwrap());
 }
 
@@ -128,11 +168,11 @@ pub fn check_fresh(c: &FreeCase) -> CheckResult {
                 .exp_act(want.get(p), traces[i].get(p)));
         }
     }
-    Ok(CaseInfo::new(k >= 2).class(format!("instances:{}", k.min(8))).class(if c.workers == 1 { "scenario-in-checker-process" } else { "scenario-in-fresh-process" }).class_if(c.instances.iter().any(|i| matches!(&i.spec, GenSpec::Det { ctor: crate::ops::Ctor::Seed(s), .. } if s.is_zero())), "has-zero-seed"))
+    Ok(CaseInfo::new(k >= 2).class(format!("instances:{}", k.min(8))).class(if c.workers == 1 { "scenario-in-checker-process" } else { "scenario-in-fresh-process" }).class_if(c.instances.iter().filter(|i| i.jops.contains(&JOp::TestTimer)).count() >= 2, "test_timer-on-two-instances").class_if(c.instances.iter().any(|i| matches!(&i.spec, GenSpec::Det { ctor: crate::ops::Ctor::Seed(s), .. } if s.is_zero())), "has-zero-seed"))
 }
 
 enum Job {
-    Step(usize, Option<SendBox>, GenSpec, Op),
+    Step(usize, Option<SendBox>, Instance, usize),
     Stop,
 }
 
@@ -155,10 +195,10 @@ pub fn check_scenario(c: &Scenario) -> CheckResult {
             while let Ok(job) = rx.recv() {
                 match job {
                     Job::Stop => break,
-                    Job::Step(i, g, spec, op) => {
+                    Job::Step(i, g, inst, kth) => {
                         // construction is part of the history: built on the thread of its first op
-                        let mut g = g.unwrap_or_else(|| SendBox(spec.build()));
-                        let v = apply(&mut *g.0, &op).map(|v| fmt_val(&v)).unwrap_or_default();
+                        let mut g = g.unwrap_or_else(|| SendBox(inst.spec.build()));
+                        let v = inst.step(&mut *g.0, kth);
                         if res_tx.send((i, g, v)).is_err() {
                             break;
                         }
@@ -176,9 +216,8 @@ pub fn check_scenario(c: &Scenario) -> CheckResult {
     let mut alternations = 0usize;
     let mut last_inst = usize::MAX;
     let mut run_step = |i: usize, w: usize, gens: &mut Vec<Option<SendBox>>, built: &mut Vec<bool>, pos: &mut Vec<usize>, traces: &mut Vec<Vec<String>>| -> Result<(), Fail> {
-        let op = c.instances[i].ops[pos[i]].clone();
         let g = if built[i] { gens[i].take() } else { None };
-        job_txs[w].send(Job::Step(i, g, c.instances[i].spec.clone(), op)).map_err(|_| Fail::inconclusive("C19:worker", "worker thread died"))?;
+        job_txs[w].send(Job::Step(i, g, c.instances[i].clone(), pos[i])).map_err(|_| Fail::inconclusive("C19:worker", "worker thread died"))?;
         let (ri, g, v) = res_rx.recv().map_err(|_| Fail::inconclusive("C19:worker", "worker thread died (panic in an operation?)"))?;
         gens[ri] = Some(g);
         built[ri] = true;
@@ -189,7 +228,7 @@ pub fn check_scenario(c: &Scenario) -> CheckResult {
     let mut result = Ok(());
     for &(si, sw) in &c.schedule {
         // next instance that still has ops, starting from the selected one
-        let Some(i) = (0..k).map(|d| (si + d) % k).find(|&i| pos[i] < c.instances[i].ops.len()) else { break };
+        let Some(i) = (0..k).map(|d| (si + d) % k).find(|&i| pos[i] < c.instances[i].n_ops()) else { break };
         let w = sw % m;
         if last_worker[i] != usize::MAX && last_worker[i] != w {
             migrations += 1;
@@ -209,7 +248,7 @@ pub fn check_scenario(c: &Scenario) -> CheckResult {
         'outer: loop {
             let mut any = false;
             for i in 0..k {
-                if pos[i] < c.instances[i].ops.len() {
+                if pos[i] < c.instances[i].n_ops() {
                     any = true;
                     if let Err(e) = run_step(i, i % m, &mut gens, &mut built, &mut pos, &mut traces) {
                         result = Err(e);
@@ -265,11 +304,11 @@ pub fn check_free(c: &FreeCase) -> CheckResult {
                 barrier.wait();
                 let mut gens: Vec<Box<dyn Gen>> = mine.iter().map(|(_, inst)| inst.spec.build()).collect();
                 let mut traces: Vec<Vec<String>> = vec![Vec::new(); mine.len()];
-                let longest = mine.iter().map(|(_, i)| i.ops.len()).max().unwrap_or(0);
+                let longest = mine.iter().map(|(_, i)| i.n_ops()).max().unwrap_or(0);
                 for step in 0..longest {
                     for (j, (_, inst)) in mine.iter().enumerate() {
-                        if step < inst.ops.len() {
-                            traces[j].push(apply(&mut *gens[j], &inst.ops[step]).map(|v| fmt_val(&v)).unwrap_or_default());
+                        if step < inst.n_ops() {
+                            traces[j].push(inst.step(&mut *gens[j], step));
                         }
                     }
                 }
@@ -382,26 +421,60 @@ impl SubCheck for StaticProbe {
     }
 }
 
+/// a scripted JitterRng instance; with probability `api` it is driven through its whole public
+/// API, and then with probability `broken` on a timer that test_timer must reject (reads zero at
+/// the start or at an inspected reading, stands still): anything a failed or passed timer test
+/// leaves behind process-wide shows up in the next instance
+fn jitter_instance(max_ops: usize, api: f64, broken: f64) -> BoxedStrategy<Instance> {
+    let info = Ty::Jitter.info();
+    let broken_script = prop_oneof![
+        (1usize..40, any::<u64>()).prop_map(|(n, salt)| crate::timer::Script::new(vec![0; n], salt)),
+        (1u64..1 << 40, any::<u64>()).prop_map(|(c, salt)| crate::timer::Script::new(vec![c; 2600], salt)),
+        (gens::timer_prog(false, 4), 0usize..1500).prop_map(|(p, at)| {
+            let sc = p.script();
+            let mut r: Vec<u64> = (0..at + 1).map(|i| sc.at(i)).collect();
+            r[at] = 0;
+            crate::timer::Script::new(r, sc.tail_salt)
+        }),
+    ];
+    let api_ops = proptest::collection::vec(prop_oneof![6 => crate::props::c12::jop(24), 3 => Just(JOp::TestTimer)], 1..=max_ops.min(6));
+    (gens::jitter_spec(false), gens::ops(&info, max_ops.min(6), 24, false), proptest::bool::weighted(0.3), proptest::option::weighted(api, (api_ops, proptest::option::weighted(broken, broken_script))))
+        .prop_map(|(mut spec, mut ops, default_rounds, api)| {
+            let mut jops = Vec::new();
+            if let Some((j, broken)) = api {
+                jops = j;
+                if let (Some(b), GenSpec::Jitter { script, .. }) = (broken, &mut spec) {
+                    *script = b;
+                }
+            }
+            if default_rounds {
+                // rely on the round count new_with_timer starts with
+                if let GenSpec::Jitter { rounds, .. } = &mut spec {
+                    *rounds = 0;
+                }
+                ops.truncate(3);
+                let mut outs = 0;
+                jops.retain(|o| {
+                    !matches!(o, JOp::U32 | JOp::U64 | JOp::Fill(_)) || {
+                        outs += 1;
+                        outs <= 3
+                    }
+                });
+            }
+            Instance { spec, ops, jops }
+        })
+        .boxed()
+}
+
 fn instance(max_ops: usize) -> BoxedStrategy<Instance> {
     let tys = gens::all_types_with_jitter();
     proptest::sample::select(tys)
         .prop_flat_map(move |ty| {
             let info = ty.info();
             if ty == Ty::Jitter {
-                (gens::jitter_spec(false), gens::ops(&info, max_ops.min(6), 24, false), proptest::bool::weighted(0.3))
-                    .prop_map(|(mut spec, mut ops, default_rounds)| {
-                        if default_rounds {
-                            // rely on the round count new_with_timer starts with
-                            if let GenSpec::Jitter { rounds, .. } = &mut spec {
-                                *rounds = 0;
-                            }
-                            ops.truncate(3);
-                        }
-                        Instance { spec, ops }
-                    })
-                    .boxed()
+                jitter_instance(max_ops, 0.5, 0.35)
             } else {
-                (gens::det_spec(ty, true), gens::ops(&info, max_ops, 300, true)).prop_map(|(spec, ops)| Instance { spec, ops }).boxed()
+                (gens::det_spec(ty, true), gens::ops(&info, max_ops, 300, true)).prop_map(|(spec, ops)| Instance { spec, ops, jops: Vec::new() }).boxed()
             }
         })
         .boxed()
@@ -538,6 +611,22 @@ pub fn def(ctx: &Ctx) -> PropDef {
                 check_fresh,
             ));
         }
+        subs.push(PSub::boxed(
+            "fresh-process/jitter-api",
+            t.pick(60, 1500),
+            || {
+                (proptest::collection::vec(jitter_instance(6, 0.999, 0.4), 2..=4), proptest::option::weighted(0.5, instance(6)))
+                    .prop_map(|(mut instances, other)| {
+                        if let Some(o) = other {
+                            instances.insert(1, o);
+                        }
+                        // workers == 2: the scenario runs in a fresh child process of its own
+                        FreeCase { instances, workers: 2, repeats: 1 }
+                    })
+                    .boxed()
+            },
+            check_fresh,
+        ));
         for part in 0..4 {
             subs.push(PSub::boxed(
                 format!("free-running/{}", part),
@@ -549,7 +638,7 @@ pub fn def(ctx: &Ctx) -> PropDef {
     }
     PropDef {
         id: "C19",
-        rule: "scenario = up to 6 generator instances (types drawn from the 19 deterministic types + scripted JitterRng, with deliberate repeats: identical twins, same seed with another history, same type with another seed; zero seeds; scripted JitterRng also with the round count new_with_timer starts with, after a real-clock JitterRng::new() earlier in the checker process; construction is part of the history and happens on the scheduled thread) + a generated schedule of (instance, worker thread) pairs over 1..4 real OS threads: a coordinator hands the boxed generator and one operation to the scheduled worker and gets both back, so exactly one operation runs at a time and the interleaving, including migrations between threads, is the generated one. Oracle: every instance's trace equals its solo replay in a fresh thread, executed both before and after the interleaved run. Free-running mode: instances partitioned over 2..8 unsynchronised threads, repeated. Fresh-process mode: the traces of instances created and advanced round-robin inside the long-lived checker process (where thousands of other generators were created before) must equal the traces each instance produces alone in a freshly spawned child process, so process-wide lazily initialised state cannot hide; in half of these cases the whole scenario itself runs in a fresh child process of its own, so that its own construction order decides the initialisation order of anything process-wide (zero seeds are frequent here). Seed-pair enumeration: for one base seed per type and run, every seed that differs from it in exactly one or two bits (32 896 pairs for 32-byte seeds) is constructed right after the base seed\u{2019}s generator and must equal the same generator constructed after an unrelated one. Static part: a probe crate asserting Send + Sync for every type is compiled against the current tree. Non-trivial = >= 2 instances of the same type advanced alternately and >= 1 thread migration; distinct by hash of the scenario.".into(),
+        rule: "scenario = up to 6 generator instances (types drawn from the 19 deterministic types + scripted JitterRng, with deliberate repeats: identical twins, same seed with another history, same type with another seed; zero seeds; scripted JitterRng also with the round count new_with_timer starts with, after a real-clock JitterRng::new() earlier in the checker process; half of the JitterRng instances are driven through their whole public API (timer_stats, set_rounds, test_timer besides the output calls, with the number of timer readings consumed in the trace), a third of those on a timer that test_timer must reject; a dedicated fresh-process sub-check runs 2-4 such instances in one fresh child process against each alone in a fresh child process; construction is part of the history and happens on the scheduled thread) + a generated schedule of (instance, worker thread) pairs over 1..4 real OS threads: a coordinator hands the boxed generator and one operation to the scheduled worker and gets both back, so exactly one operation runs at a time and the interleaving, including migrations between threads, is the generated one. Oracle: every instance's trace equals its solo replay in a fresh thread, executed both before and after the interleaved run. Free-running mode: instances partitioned over 2..8 unsynchronised threads, repeated. Fresh-process mode: the traces of instances created and advanced round-robin inside the long-lived checker process (where thousands of other generators were created before) must equal the traces each instance produces alone in a freshly spawned child process, so process-wide lazily initialised state cannot hide; in half of these cases the whole scenario itself runs in a fresh child process of its own, so that its own construction order decides the initialisation order of anything process-wide (zero seeds are frequent here). Seed-pair enumeration: for one base seed per type and run, every seed that differs from it in exactly one or two bits (32 896 pairs for 32-byte seeds) is constructed right after the base seed\u{2019}s generator and must equal the same generator constructed after an unrelated one. Static part: a probe crate asserting Send + Sync for every type is compiled against the current tree. Non-trivial = >= 2 instances of the same type advanced alternately and >= 1 thread migration; distinct by hash of the scenario.".into(),
         explanation: None,
         assumptions: vec![
             "interleavings inside one operation are not enumerated (the crates contain no synchronisation primitives to instrument)".into(),
